@@ -712,6 +712,13 @@ def templates(op, spox):
     t("c_value_be_f4", (), ("F6",), lambda a, p: [op.constant(value=np.arange(6).astype(">f4") * 0.5)])
     t("init_be_f4", (), ("F3",), lambda a, p: [spox._future.initializer(np.array([1.5, -2.0, 3.0], dtype=">f4"))])
 
+    # LARGE tensors (several KiB) in the non-native byte order / as strided views: the rows read back must be the numbers of the array
+    _big_f = (np.arange(1100 * 3) % 17).reshape(1100, 3).astype(np.float32) * 0.5
+    _big_i = (np.arange(700 * 3) % 23).reshape(700, 3).astype(np.int64)
+    t("c_value_large_be_f4", (), ("F3",), lambda a, p: [op.gather(op.constant(value=_big_f.astype(">f4")), op.constant(value=np.array(1001, np.int64)))])
+    t("init_large_be_i8", (), ("I3",), lambda a, p: [op.gather(spox._future.initializer(_big_i.astype(">i8")), op.constant(value=np.array(699, np.int64)))])
+    t("c_value_large_strided_f4", (), ("F3",), lambda a, p: [op.gather(op.constant(value=np.repeat(_big_f, 2, axis=0)[::2]), op.constant(value=np.array(5, np.int64)))])
+
     def c_readonly_view(a, p):
         scratch = np.array([True, False])
         r = op.constant(value=np.broadcast_to(scratch, (2,)))
